@@ -24,12 +24,15 @@ RULE = ("chords: label pairs from the C11 pool, all 12 transpositions x 3 spelli
         "under every transposition and respelling; non-trivial = roots/tonics related (score not forced to 0)")
 ASSUMPTIONS = [
     "key strings are ASCII (Python's str.split / str.lower are Unicode-aware; the model's are ASCII)",
-    "chord labels reach the rules only through chord.encode_many; label-level transposition is tied to the model's "
-    "transposeEnc by the correspondence suite chord_transpose_enc on the real encoder",
+    "chord labels reach the rules only through chord.encode_many; label-level transposition equals the model's "
+    "transposeEnc by theorem (C09_Labels.encode_transpose, on the C10 encode model) and by the correspondence suite "
+    "chord_transpose_enc on the real encoder",
 ]
 UNPROVED = [
-    "encode_respell / transpose_evaluate (chord.evaluate invariance as a Lean theorem): needs the C10 label/encode "
-    "model and the interval-merging model; covered here by the chord.evaluate oracle on the real code only",
+    "transpose_evaluate (invariance of chord.evaluate's duration-weighted averages as a Lean theorem): the per-pair "
+    "statement is proved at label level (C09_Labels.encode_respell / encode_transpose / label_cmp_transpose: every "
+    "comparison rule is invariant under joint transposition / respelling of LABELS); lifting it to chord.evaluate "
+    "needs the interval-merging model and is covered by the chord.evaluate oracle on the real code only",
     "§3 frequency scaling / octave theorems (melody, multipitch, transcription): other slice",
 ]
 EXHAUSTIVE = {"quick": True, "thorough": True}
